@@ -87,6 +87,30 @@ func main() {
 		os.Exit(checkCmd(os.Args[2:]))
 	case "replay":
 		os.Exit(replayCmd(os.Args[2:]))
+	case "loops":
+		// lists every loop of the hcl-lang functions with its ordinal and whether it can be left early
+		w, err := loadWorld("/repo")
+		if err != nil {
+			fmt.Fprintln(os.Stderr, err)
+			os.Exit(2)
+		}
+		for _, f := range w.funcs {
+			loops := findLoops(f)
+			for h, li := range loops {
+				early := false
+				for b := range li.body {
+					for _, sb := range b.Succs {
+						if !li.body[sb] && b != h {
+							early = true
+						}
+					}
+					if len(b.Succs) == 0 {
+						early = true
+					}
+				}
+				fmt.Printf("%s\t%d\t%v\t%s\n", shortName(f), li.ord, early, shortPath(w.prog.Fset.Position(f.Pos()).Filename))
+			}
+		}
 	case "copyreplay":
 		os.Exit(copyReplayAll(os.Args[2:]))
 	default:
